@@ -82,16 +82,16 @@ def boundWrites : List (String × String × String × String) := [
   ("Space", "__init__", "self.ub", "np.ones(n_variables)"),
   ("Space", "_build", "self.lb", "np.asarray(lower_bound)"),
   ("Space", "_build", "self.ub", "np.asarray(upper_bound)"),
-  ("SearchSpace", "_initialize_agents", "agent.position[j]", "for agent in self.agents / for (j, (lb, ub)) in enumerate(zip(self.lb, self.ub)) :: r.generate_uniform_random_number(lb, ub, size=agent.n_dimensions)"),
-  ("SearchSpace", "_initialize_agents", "agent.lb[j]", "for agent in self.agents / for (j, (lb, ub)) in enumerate(zip(self.lb, self.ub)) :: lb"),
-  ("SearchSpace", "_initialize_agents", "agent.ub[j]", "for agent in self.agents / for (j, (lb, ub)) in enumerate(zip(self.lb, self.ub)) :: ub"),
-  ("HyperSpace", "_initialize_agents", "agent.position[j]", "for agent in self.agents / for (j, _) in enumerate(agent.position) :: r.generate_uniform_random_number(size=agent.n_dimensions)"),
-  ("TreeSpace", "_initialize_agents", "agent.position[j]", "for agent in self.agents / for (j, (lb, ub)) in enumerate(zip(self.lb, self.ub)) :: r.generate_uniform_random_number(lb, ub, size=agent.n_dimensions)"),
-  ("TreeSpace", "_initialize_agents", "agent.lb[j]", "for agent in self.agents / for (j, (lb, ub)) in enumerate(zip(self.lb, self.ub)) :: lb"),
-  ("TreeSpace", "_initialize_agents", "agent.ub[j]", "for agent in self.agents / for (j, (lb, ub)) in enumerate(zip(self.lb, self.ub)) :: ub"),
-  ("TreeSpace", "_initialize_terminals", "terminal.position[j]", "for terminal in self.terminals / for (j, (lb, ub)) in enumerate(zip(self.lb, self.ub)) :: r.generate_uniform_random_number(lb, ub, size=terminal.n_dimensions)"),
-  ("TreeSpace", "_initialize_terminals", "terminal.lb[j]", "for terminal in self.terminals / for (j, (lb, ub)) in enumerate(zip(self.lb, self.ub)) :: lb"),
-  ("TreeSpace", "_initialize_terminals", "terminal.ub[j]", "for terminal in self.terminals / for (j, (lb, ub)) in enumerate(zip(self.lb, self.ub)) :: ub")]
+  ("SearchSpace", "_initialize_agents", "v1.position[v2]", "for v1 in self.agents / for (v2, (v3, v4)) in enumerate(zip(self.lb, self.ub)) :: r.generate_uniform_random_number(v3, v4, size=v1.n_dimensions)"),
+  ("SearchSpace", "_initialize_agents", "v1.lb[v2]", "for v1 in self.agents / for (v2, (v3, v4)) in enumerate(zip(self.lb, self.ub)) :: v3"),
+  ("SearchSpace", "_initialize_agents", "v1.ub[v2]", "for v1 in self.agents / for (v2, (v3, v4)) in enumerate(zip(self.lb, self.ub)) :: v4"),
+  ("HyperSpace", "_initialize_agents", "v1.position[v2]", "for v1 in self.agents / for (v2, _) in enumerate(v1.position) :: r.generate_uniform_random_number(size=v1.n_dimensions)"),
+  ("TreeSpace", "_initialize_agents", "v1.position[v2]", "for v1 in self.agents / for (v2, (v3, v4)) in enumerate(zip(self.lb, self.ub)) :: r.generate_uniform_random_number(v3, v4, size=v1.n_dimensions)"),
+  ("TreeSpace", "_initialize_agents", "v1.lb[v2]", "for v1 in self.agents / for (v2, (v3, v4)) in enumerate(zip(self.lb, self.ub)) :: v3"),
+  ("TreeSpace", "_initialize_agents", "v1.ub[v2]", "for v1 in self.agents / for (v2, (v3, v4)) in enumerate(zip(self.lb, self.ub)) :: v4"),
+  ("TreeSpace", "_initialize_terminals", "v1.position[v2]", "for v1 in self.terminals / for (v2, (v3, v4)) in enumerate(zip(self.lb, self.ub)) :: r.generate_uniform_random_number(v3, v4, size=v1.n_dimensions)"),
+  ("TreeSpace", "_initialize_terminals", "v1.lb[v2]", "for v1 in self.terminals / for (v2, (v3, v4)) in enumerate(zip(self.lb, self.ub)) :: v3"),
+  ("TreeSpace", "_initialize_terminals", "v1.ub[v2]", "for v1 in self.terminals / for (v2, (v3, v4)) in enumerate(zip(self.lb, self.ub)) :: v4")]
 end Expected
 
 end Opy
